@@ -15,6 +15,7 @@ CONFIG_NOTE = {
     "std-nocheck": "rrtk built WITHOUT dimension checking",
     "std-rel": "true release build: debug assertions and overflow checks compiled out, dimension checking on (dim_check_release)",
     "std-rel-nocheck": "true release build without dimension checking",
+    "libm": "rrtk built as no_std with alloc and libm (no std)",
 }
 
 
@@ -130,6 +131,14 @@ def c17_run(pid, tier):
     engines.append(c17_extra.downstream())
     engines.append(c17_extra.threads(tier))
     return engines
+
+
+def c03_run(pid, tier):
+    """std (tier bounds), true release, and the no_std + alloc build: `Time` and `Datum` are plain data
+    types whose trait impls a change can make differ between std and no_std"""
+    engines = default_run(pid, tier)
+    common.build_many(["libm"])
+    return config_run(pid, "libm", engines)
 
 
 def c19_run(pid, tier):
@@ -274,7 +283,7 @@ TABLE = {
         "(newest of all present inputs or newest of the deciding ones)"], run=dual_run),
     "C03": spec("model_checking", [
         "equal timestamps: any candidate that no other candidate is strictly newer than is accepted",
-        "the table of Datum operator impls is cross-checked against a scan of /repo/src/datum.rs at run time"]),
+        "the table of Datum operator impls is cross-checked against a scan of /repo/src/datum.rs at run time"], run=c03_run),
     "C05": spec("model_checking", [
         "the per-stream reset policy table (which of absent/error is a reset, which streams ignore absent samples) is "
         "transcribed from the crate's documentation and property statement",
